@@ -381,6 +381,14 @@ def check_writers(ctx):
         return found
     for name in ("text", "csv"):
         cases[name] = axis_cases(base.methods[name])
+        if len(cases[name]) < 3:
+            # a table of (axis, column name) rows, a helper chain: read the cases from the folded writer
+            try:
+                from . import c12
+                found_, _default = c12.descriptor_cases(prog, name)
+                cases[name] |= set("verif.axis.%s()" % k_ for k_ in found_)
+            except Exception:
+                pass
     want = {"verif.axis.Threshold()", "verif.axis.Obs()", "verif.axis.Fcst()"}
     missing = {n_: sorted(want - cases[n_]) for n_ in ("text", "csv")}
     ctx.ob("C19.6", "verif.output.Output", cases["text"] == cases["csv"] and len(cases["text"]) >= 3, "text() and csv() handle the same axis cases %s" % sorted(cases["text"]),
